@@ -158,6 +158,9 @@ func codecRule(c *Ctx, rule string) {
 	c.r.Stats["codec_sites"] = len(sites)
 	byKind := map[string][]codecSite{}
 	for _, s := range sites {
+		if (s.kind == "" || offUnknown[s.call]) && !touchesBolt(s) {
+			continue // an encoding that never meets the database (hash input of cache keys, say) is not an on-disk record
+		}
 		if offUnknown[s.call] {
 			s.kind = ""
 		}
@@ -372,4 +375,53 @@ func flowsToPut(c *Ctx, v ssa.Value, depth int) (int, string) {
 		return 0, ""
 	}
 	return visit(v, depth)
+}
+
+// touchesBolt: the buffer an encode site writes (or the value a decode site reads) is passed to / obtained from a bbolt
+// call in the same function.
+func touchesBolt(s codecSite) bool {
+	args := s.call.Call.Args
+	var bufs []ssa.Value
+	if s.put {
+		bufs = append(bufs, args[len(args)-2])
+	} else {
+		bufs = append(bufs, args[len(args)-1])
+	}
+	roots := map[ssa.Value]bool{}
+	for _, b := range bufs {
+		roots[b] = true
+		roots[path(b).Root] = true
+		if sl, ok := b.(*ssa.Slice); ok {
+			roots[sl.X] = true
+			roots[path(sl.X).Root] = true
+		}
+	}
+	delete(roots, nil)
+	hit := false
+	allInstrs(s.fn, func(i ssa.Instruction) {
+		cc := callCommon(i)
+		if cc == nil || !strings.Contains(calleeName(cc), "go.etcd.io/bbolt") {
+			return
+		}
+		for _, a := range cc.Args {
+			if roots[a] || roots[path(a).Root] {
+				hit = true
+			}
+			if sl, ok := a.(*ssa.Slice); ok && (roots[sl.X] || roots[path(sl.X).Root]) {
+				hit = true
+			}
+		}
+		// values obtained from bbolt (cursor keys, Get results)
+		if v, ok := i.(ssa.Value); ok {
+			for r := range roots {
+				if e, isE := r.(*ssa.Extract); isE && e.Tuple == v {
+					hit = true
+				}
+				if r == v {
+					hit = true
+				}
+			}
+		}
+	})
+	return hit
 }
